@@ -199,6 +199,9 @@ func run(repo, dir string, seed uint64, nunits, nvalues int, cfg idlgen.Config, 
 			units = append(units, batch.Unit{Prog: p, Recurse: true, Options: o, Tag: fmt.Sprintf("prog%d", i)})
 		}
 	}
+	// the directed unit (seed independent), under the default option set and one representation-changing set
+	units = append(units, batch.Unit{Prog: directedProgram(), Recurse: true, Tag: "directed"},
+		batch.Unit{Prog: directedProgram(), Recurse: true, Options: []string{"nil_safe", "gen_setter"}, Tag: "directed"})
 	b, err := batch.Build(work, repo, units, nil)
 	if b != nil {
 		fmt.Println(b.Summary())
@@ -248,6 +251,12 @@ func run(repo, dir string, seed uint64, nunits, nvalues int, cfg idlgen.Config, 
 		for sidx, st := range u.Schema.Structs {
 			key := fmt.Sprintf("%s:%d", u.Key, sidx)
 			add("N "+key, &check{unit: u, sidx: sidx, what: "N", expect: st.Initial()})
+			if u.Tag == "directed" {
+				for _, v := range directedValues() {
+					genOps(r, u, sidx, key, v, add, out)
+				}
+				continue
+			}
 			for k := 0; k < nvalues; k++ {
 				v := valgen.Gen(r, u.Schema, sidx, 1+r.Intn(6), vcfg)
 				out.Count(fmt.Sprintf("val.depth.%d", v.Depth()))
